@@ -145,7 +145,9 @@ class C04(Harness):
         if real[0] == 'syntax':
             return z3.BoolVal(bool(syntax_ok))
         if real[0] == 'missing':
-            alts = [deep_eq(real[1].lower(), n.lower()) for n in names]
+            # the name of an environment variable must be carried as written (its case is significant);
+            # for a definition the statement does not say which spelling the error carries
+            alts = [deep_eq(real[1], n) if exact else deep_eq(real[1].lower(), n.lower()) for n, exact in names]
             if not alts:
                 return z3.BoolVal(False)
             return z3.And(z3.Or(alts), deep_eq(real[2], s))
